@@ -1,6 +1,7 @@
 mod conf;
 mod crash;
 mod ctl;
+mod ebytes;
 mod elines;
 mod elines2;
 mod etree;
@@ -74,6 +75,7 @@ fn dispatch(prop: &str, tier: &str) -> i32 {
         "C14" => tags::run_c14(tier),
         "C17" => conf::run_c17(tier),
         "C11" => etree::run_c11(tier),
+        "C18" => ebytes::run_c18(tier),
         "C06" | "C07" | "C08" | "C09" | "C10" => hist::run_property(prop, tier),
         "C02" | "C03" | "C05" => sched::run_property(prop, tier),
         _ => {
@@ -92,6 +94,7 @@ fn dispatch_replay(prop: &str, v: &serde_json::Value) -> bool {
         "U-tag" => tags::replay(v),
         "E-conf" => conf::replay(v),
         "E-tree" => etree::replay(v),
+        "E-bytes" => ebytes::replay(v),
         "H" => hist::replay(v),
         e => {
             eprintln!("unknown engine {e:?} in replay file");
